@@ -308,8 +308,90 @@ func opsTokens(ops []fstrace.Op) string {
 	return strings.Join(t, " ")
 }
 
+// c19Unstorable: writes that cannot create their temporary file — the key's file name has room in NAME_MAX but the name
+// of its temporary sibling has not (a 123- or 124-byte controller name gives such an entity file), or something that
+// cannot be opened for writing sits where the temporary file would go. Such a Set fails; killed at any of its system
+// calls, or left to fail, it leaves the old value as it was.
+func c19Unstorable(c *Ctx) {
+	probe := c19Probe(c)
+	root := c.ScratchDir()
+	n := 0
+	for i, kind := range []string{"name-252", "name-253", "name-255", "temp-is-a-directory"} {
+		id := "unstorable#" + kind
+		if c.Skip(id) {
+			continue
+		}
+		r := c.CaseRng("unstorable", i)
+		key := "k"
+		switch kind {
+		case "name-252":
+			key = strings.Repeat("a", 252)
+		case "name-253":
+			key = strings.Repeat("b", 246) + ".entity"
+		case "name-255":
+			key = strings.Repeat("c", 255)
+		}
+		old, nw := randBytes(r, 20+r.Intn(100)), randBytes(r, 1+r.Intn(200))
+		prepare := func() string {
+			n++
+			d := filepath.Join(root, fmt.Sprintf("u%d", n), "store")
+			c19Populate(d, map[string][]byte{key: old, "other": []byte("bystander")})
+			if kind == "temp-is-a-directory" {
+				os.MkdirAll(filepath.Join(d, key+".tmp", "x"), 0755)
+			}
+			return d
+		}
+		intact := func(d string) string {
+			got, err := ioutil.ReadFile(filepath.Join(d, key))
+			by, _ := ioutil.ReadFile(filepath.Join(d, "other"))
+			switch {
+			case err != nil:
+				return "the key's file is gone: " + err.Error()
+			case !bytes.Equal(got, old) && !bytes.Equal(got, nw):
+				return fmt.Sprintf("the key holds %d bytes that are neither the old (%d bytes) nor the new value (%d bytes)", len(got), len(old), len(nw))
+			case string(by) != "bystander":
+				return "another key changed"
+			}
+			return ""
+		}
+		argv := func(d string) []string { return []string{probe, "set", d, hx([]byte(key)), hx(nw)} }
+		d0 := prepare()
+		calls, _, runErr, err := fstrace.Record(root, d0, argv(d0), "")
+		if err != nil {
+			fatal("strace: %v", err)
+		}
+		in := map[string]interface{}{"key_file_name_bytes": len(key), "situation": kind, "old_value_bytes": len(old), "new_value_bytes": len(nw), "system_calls": callDescr(calls)}
+		if msg := intact(d0); msg != "" {
+			c.Violate("a storage write that cannot create its temporary file damages the stored value", id, in, "old or new value in full", msg)
+		}
+		got, _ := ioutil.ReadFile(filepath.Join(d0, key))
+		if runErr == nil && !bytes.Equal(got, nw) {
+			c.Violate("a storage write reports success but the key does not hold the new value", id, in, "new value", fmt.Sprintf("%d bytes", len(got)))
+		}
+		os.RemoveAll(filepath.Dir(d0))
+		for j, call := range calls {
+			d := prepare()
+			_, _, kerr, err := fstrace.Record(root, d, argv(d), fmt.Sprintf("%s:signal=SIGKILL:when=%d", call.Name, call.Nth))
+			if err != nil {
+				fatal("strace: %v", err)
+			}
+			pin := map[string]interface{}{"key_file_name_bytes": len(key), "situation": kind, "old_value_bytes": len(old), "new_value_bytes": len(nw), "system_calls": callDescr(calls), "killed_on_entering_system_call": j, "call": call.Descr}
+			if kerr == nil {
+				c.Mismatch("kill-injection", id, pin, "process killed at "+call.Descr, "process ran to completion")
+			} else if msg := intact(d); msg != "" {
+				c.Violate("crash during a storage write that cannot create its temporary file leaves a damaged value under the key", id, pin, "old or new value in full", msg)
+			}
+			os.RemoveAll(filepath.Dir(d))
+			c.Hist("kill:" + call.Name)
+		}
+		c.Count(id, true, "stream:unstorable", fmt.Sprintf("unstorable:set-failed=%v", runErr != nil), fmt.Sprintf("unstorable:syscalls=%d", len(calls)))
+	}
+}
+
 func checkC19(c *Ctx) {
 	storageFaults(c, "C19")
+	c19Unstorable(c)
+	c18TempSpellings(c) // a key whose file is another key's temporary file is damaged by that key's writes, crash or not
 	c.SetRule("trace: one case = one real storage write (Set / SaveEntity / the three Sets of Config.save) on a seeded directory " +
 		"(old value absent / empty / shorter / equal / longer, bystander files, sometimes a stale temporary sibling), recorded with strace; " +
 		"per case: checkTrace on every write's segment, and for every prefix k a real-syscall replay read back through the real Get/KeysWithSuffix " +
